@@ -44,6 +44,47 @@ NEEDS = {
  "C19-1": "loader shares the writer's NodeCache (top node resident) and uses a different KeyCompare, top node with >= 2 keys (checkRoot drops checks assuming checkLoadedNode ran)",
  "C19-2": "v1.1.5binary top node truncated exactly at an element boundary (exhausted buffer reads as length 0)",
 }
+
+NEEDS.update({
+ "C01b-1": "Delete of an absent key that does not sort after every key of its node, given the value its next-larger neighbour holds (set-like use): the key-equality test in findEntry became vacuous and the neighbour is deleted",
+ "C01b-2": "value/key types with slices, maps or omitempty fields, persisted and decoded again in v1.1.5binary with >= 2 entries per node (one scratch decode target reused across entries)",
+ "C02b-1": "no node cache, a persisted clean root, load -> Clone -> second Clone or Cursor on that clone -> mutation (ToMut takes a loaded node over in place when there is no cache)",
+ "C02b-2": "shared NodeCache, a Store fault during a flush with at least one node stored, a retry, later updates, then the kept root read through the same cache (cache.Add moved into the async store closure)",
+ "C03b-1": "NodeCache configured, a failing Store in a flush, a retry while the cache entry is present (cache.Add as soon as the write is queued)",
+ "C03b-2": "the caller's context cancelled before or during the flush and a store that ignores the context: remaining writes silently dropped, MakeRoot succeeds",
+ "C04b-1": "reload (MakeRoot+LoadMast) of a tree of height >= 1, then deletes crossing the real shrink threshold or an insert with a high-layer key in the root (threshold loop starts at 1)",
+ "C04b-2": "one handle that grows, deletes far enough to shrink, then inserts again (shrink updates the thresholds in the wrong order)",
+ "C05b-1": "a flush with >= 2 dirty nodes, one Store failing and another in-flight Store succeeding after it (first error overwritten by nil)",
+ "C05b-2": "registered-types marshaler with v1marshaler, cache populated by loading, load a root, modify that tree, load the same root again (decoded nodes not marked shared)",
+ "C06b-1": "a key order whose results are not limited to -1/0/1 (a-b) and a gap > 1 between compared keys (switch cmp { case -1 ... })",
+ "C06b-2": "old and new persisted in different stores and an unopened old subtree link left after new is exhausted (old link loaded through the new tree)",
+ "C07b-1": "old version with >= 2 consecutive entry-less intermediate layers above a change (only the first node of the run is reported removed)",
+ "C07b-2": "versions written through a NodeCache and diffed while their nodes are still cached (cached nodes keep pointer links; DiffLinks reports pointers)",
+ "C08b-1": "v1marshaler, a grow from height >= 1 creating a key-less child with one link (nil slices marshal as null)",
+ "C08b-2": "file store, two overlapping Stores of the same name (shared <name>.tmp with O_TRUNC)",
+ "C09b-1": "shared NodeCache, a left sibling published by a flush (spare capacity), two trees each deleting a separator above it (append aliasing in mergeNodes)",
+ "C09b-2": "a transient Load failure three levels below the node receiving a layer>=3 key in a tree of height >= 3 (split swallows the recursive error): Insert returns nil, a child is dropped",
+ "C10b-1": "an absent probe whose layer is above the leaves in a tree of height >= 1 (SeekIter stops at the probe's layer)",
+ "C10b-2": "an interior node without a leftmost child but with other children; Forward from one of its keys (leaf fast path on Link[0] == nil)",
+ "C11b-1": "persisted tree with interior nodes, shared NodeCache, two trees from one root modifying below a common node (dirty flag written on the shared node before ToMut)",
+ "C11b-2": "tree B producing the same node content as tree A and loading A's live node from the cache while A's MakeRoot is in flight (cache.Add in the async store closure)",
+ "C12b-1": "cursor on an interior entry of a persisted tree, Load fault on the child load of that Forward (linkIndex advanced before the load)",
+ "C12b-2": "Delete of an interior-layer key with persisted children on both sides and a Load fault in the merge (size decremented before the fallible part)",
+ "C13b-1": "set-like tree (nil values): re-inserting an existing key with its nil value dirties the path (sameValue() false for nil)",
+ "C13b-2": "persisted tree of height >= 1, deleting the last top-layer key which has a child on one side only: shrink promotes the persisted child to root, IsDirty() false",
+ "C14b-1": "string keys longer than 128 bytes (layer from the first 128 bytes only)",
+ "C14b-2": "NewRoot with non-nil options lacking NodeFormat (default format only applied for nil options)",
+ "C15b-1": "writer with a NodeCache returning to already-written content (change + revert, or clone) and persisting again: the tree stays dirty in memory, a diff against a fresh load reads the dirty path",
+ "C15b-2": "the two versions opened through Persist handles with different NodeURLPrefix (replica, or the same directory spelled differently): no common subtree is skipped",
+ "C16b-1": "Delete of a high-layer key with subtrees on both sides in a persisted uncached tree of height >= 3 (merge re-loads the nodes it already has: every node fetched twice)",
+ "C16b-2": "RemoteConfig.KeyCompare set and a root holding exactly one key with a left child (checkRoot loads that child too)",
+ "C17b-1": "a node of at most 4096 bytes whose write is cut short (small-node fast path writes straight to the final name)",
+ "C17b-2": "two overlapping Stores of the same node (temp file named after the node, truncated by the second writer)",
+ "C18b-1": "an S3 key prefix that is not in cleaned 'dir/' form (path.Join instead of concatenation)",
+ "C18b-2": "concurrent Stores of one name, or a crash between creating <path>.tmp and the rename followed by a re-Store (O_EXCL on a fixed temp name, 'already exists' treated as success)",
+ "C19b-1": "v1marshaler top node with a non-empty but too short link list (guard weakened to > keys+1: padded with nil links, subtrees silently lost)",
+ "C19b-2": "unknown NodeFormat together with an empty root or a top node already in the NodeCache (format validated only on the decode path)",
+})
 V = os.path.dirname(os.path.dirname(os.path.abspath(__file__)))
 def first_lines(path):
     try: return " ".join(l.strip() for l in open(path).read().splitlines() if l.strip())[:600]
